@@ -542,6 +542,17 @@ func (t *Task) load(
 	slices.SortFunc(blocks, func(a, b eth.Block) int {
 		return cmp.Compare(a.Num(), b.Num())
 	})
+	// the partitions are fetched independently (and may be served
+	// from the cache): together they must still be one chain
+	for i := 1; i < len(blocks); i++ {
+		prev, cur := &blocks[i-1].Header, &blocks[i].Header
+		if len(cur.Parent) != 32 || len(prev.Hash) != 32 {
+			continue
+		}
+		if !bytes.Equal(cur.Parent, prev.Hash) {
+			return nil, fmt.Errorf("loading blocks: block %d does not link to block %d", cur.Number, prev.Number)
+		}
+	}
 	first, last := blocks[0], blocks[len(blocks)-1]
 	if len(first.Header.Parent) == 32 && !bytes.Equal(localHash, first.Header.Parent) {
 		return nil, ErrReorg
